@@ -371,4 +371,236 @@ theorem idempotent_calls (c : Cfg) (d : Option Dep) (a b : Step) (oa ob : StepOu
         · exact absurd hcc hca
   · rfl
 
+/-! ## C01 — exposure along every walk -/
+
+/-- **C01 (walk bound)** — for every Deployment of a fixed size `r`, every plan and every finite sequence of
+    controller calls (with any faults) and admitted user updates (that do not scale): at the end, the number of
+    pods the partition allows on the new revision is at most the larger of what the Deployment allowed at the
+    start and the largest `CalculateBatchReplicas` of the batches `UpgradeBatch` was called for. -/
+theorem walk_exposure_bound (c : Cfg) (r : Int) (steps : List Step) :
+    ∀ (d df : Dep), d.replicas = some r → noScale steps = true → runD c (some d) steps = some (some df) →
+      df.replicas = some r ∧ limitOf df ≤ max (limitOf d) (allowedMax c.rel r steps) := by
+  induction steps with
+  | nil =>
+    intro d df hrep _ hrun
+    simp only [runD, Option.some.injEq] at hrun
+    subst hrun
+    exact ⟨hrep, Int.le_max_left _ _⟩
+  | cons s ss ih =>
+    intro d df hrep hns hrun
+    simp only [noScale, List.all_cons, Bool.and_eq_true] at hns
+    obtain ⟨hs, hss⟩ := hns
+    have hs' : s.edit.replicas = none := by cases h : s.edit.replicas <;> simp_all
+    simp only [runD] at hrun
+    cases hst : step c (some d) s with
+    | panic => rw [hst] at hrun; cases hrun
+    | val o =>
+      rw [hst] at hrun
+      simp only at hrun
+      obtain ⟨d1, hd1, hr1, hl1⟩ := step_limit c d r s o hrep hs' hst
+      rw [hd1] at hrun
+      obtain ⟨hrf, hlf⟩ := ih d1 df hr1 (by simpa [noScale] using hss) hrun
+      refine ⟨hrf, ?_⟩
+      simp only [allowedMax]
+      omega
+
+/-- **C01 (initialize, then only what the batches allow)** — the brief's scenario at full strength: whatever
+    partition an earlier BatchRelease left in the strategy annotation, once a new BatchRelease has successfully
+    initialised a Deployment it did not yet control, every later state of every walk allows at most the largest
+    planned size among the batches upgraded since — nothing before the first `UpgradeBatch`. -/
+theorem initialize_then_within_steps (c : Cfg) (r : Int) (d df : Dep) (s0 : Step) (o0 : StepOut) (rest : List Step)
+    (hrep : d.replicas = some r) (hnc : isUnderRolloutControl d = false)
+    (hcall : s0.call = .initialize) (h0 : step c (some d) s0 = .val o0) (hok : o0.res = .ok)
+    (hns : noScale rest = true) (hrun : runD c o0.dep rest = some (some df)) :
+    limitOf df ≤ allowedMax c.rel r rest := by
+  have h1 := initialize_exposes_nothing c (some d) s0 o0 hcall h0
+  simp only [initExposesNothing, hok, if_true] at h1
+  cases hd1 : o0.dep with
+  | none => rw [hd1] at h1; simp at h1
+  | some d1 =>
+    rw [hd1] at h1 hrun
+    simp only [hnc, Bool.false_eq_true, if_false, Bool.and_eq_true, beq_iff_eq] at h1
+    obtain ⟨⟨⟨_, _⟩, hl⟩, _⟩ := h1
+    have hc : s0.call ≠ .admit := by rw [hcall]; decide
+    have hfr := step_frame c (some d) s0 o0 h0
+    simp only [frame, hc, if_false, hd1, Bool.and_eq_true, beq_iff_eq] at hfr
+    obtain ⟨⟨⟨⟨_, hr1⟩, _⟩, _⟩, _⟩ := hfr
+    obtain ⟨_, hb⟩ := walk_exposure_bound c r rest d1 df (by rw [hr1, hrep]) hns hrun
+    have := allowedMax_nonneg c.rel r rest
+    rw [hl] at hb
+    omega
+
+/-! ## C05 — the user's strategy survives the round trip -/
+
+theorem stepRU_of_ctrl (u : RU) (s : Step) (hc : s.call ≠ .admit) : stepRU u s = u := by
+  simp [stepRU, hc]
+
+/-- one step keeps the invariant -/
+theorem step_inv (c : Cfg) (d : Dep) (u : RU) (s : Step) (o : StepOut)
+    (hu : ruValid u = true) (hi : Inv d u) (hs : (s.call != .admit || editOK s.edit) = true)
+    (h : step c (some d) s = .val o) :
+    ∃ d', o.dep = some d' ∧ Inv d' (stepRU u s) ∧ ruValid (stepRU u s) = true := by
+  by_cases hc : s.call = .admit
+  · have he : editOK s.edit = true := by simpa [hc] using hs
+    simp only [step, hc] at h
+    cases ha : admit c.world d s.edit with
+    | panic => rw [ha] at h; cases h
+    | val d' =>
+      rw [ha] at h
+      simp only [Out.val.injEq] at h
+      subst h
+      obtain ⟨hin, hun⟩ := inv_applyEdit hu hi he
+      have : stepRU u s = editRU u s.edit := by simp [stepRU, hc]
+      rw [this]
+      exact ⟨d', rfl, inv_webhook rfl hun hin ha, hun⟩
+  · rw [stepRU_of_ctrl u s hc]
+    rcases ctrl_step_cases c (some d) s o hc h with ⟨_, _, hdep, _⟩ | ⟨_, hd, _⟩ | ⟨d0, r0, hd, _, _, hrest⟩
+    · exact ⟨d, hdep, hi, hu⟩
+    · cases hd
+    · simp only [Option.some.injEq] at hd; subst hd
+      rcases hrest with ⟨_, _, hdep, _⟩ | ⟨d', _, _, _, hdep, _⟩ | ⟨d', hsome, _, _, hdep, _⟩
+      · exact ⟨d, hdep, hi, hu⟩
+      · exact ⟨d, hdep, hi, hu⟩
+      · refine ⟨d', hdep, ?_, hu⟩
+        cases hcall : s.call
+        · simp only [writeOf, hcall] at hsome
+          exact inv_initialize hu hi hsome
+        · simp only [writeOf, hcall] at hsome
+          split at hsome
+          · split at hsome
+            · cases hsome
+            · exact inv_upgrade hi hsome
+          · cases hsome
+        · simp only [writeOf, hcall] at hsome
+          exact (inv_finalize hu hi hsome).1
+        · exact absurd hcall hc
+
+/-- every walk keeps the invariant, for the block the user submitted last -/
+theorem walk_inv (c : Cfg) (steps : List Step) :
+    ∀ (d df : Dep) (u : RU), ruValid u = true → Inv d u → stepsOK steps = true →
+      runD c (some d) steps = some (some df) →
+      Inv df (trackRU u steps) ∧ ruValid (trackRU u steps) = true := by
+  induction steps with
+  | nil =>
+    intro d df u hu hi _ hrun
+    simp only [runD, Option.some.injEq] at hrun
+    subst hrun
+    exact ⟨hi, hu⟩
+  | cons s ss ih =>
+    intro d df u hu hi hok hrun
+    simp only [stepsOK, List.all_cons, Bool.and_eq_true] at hok
+    obtain ⟨hs, hss⟩ := hok
+    simp only [runD] at hrun
+    cases hst : step c (some d) s with
+    | panic => rw [hst] at hrun; cases hrun
+    | val o =>
+      rw [hst] at hrun
+      simp only at hrun
+      obtain ⟨d1, hd1, hi1, hu1⟩ := step_inv c d u s o hu hi hs hst
+      rw [hd1] at hrun
+      exact ih d1 df (stepRU u s) hu1 hi1 (by simpa [stepsOK] using hss) hrun
+
+/-- a Deployment as its user configured it satisfies the invariant -/
+theorem userState_inv (d : Dep) (u : RU) (h : userState d u = true) : Inv d u := by
+  simp only [userState, userClean, Bool.and_eq_true, beq_iff_eq, Bool.not_eq_true'] at h
+  obtain ⟨⟨h1, h2⟩, ⟨⟨⟨⟨h3, h4⟩, h5⟩, h6⟩, h7⟩⟩ := h
+  exact ⟨fun _ => ⟨h4, h5, h6, h7⟩, Shape.user h1 h2 h3⟩
+
+/-- **C05 `finalize_restores_user_strategy`** — for every `rollingUpdate` block `u` a user can have (both fields
+    set, not both zero), every Deployment configured with it, and **every** finite walk of controller calls
+    (`Initialize`, `UpgradeBatch`, `Finalize` with or without `batchPartition`, each with any API fault) and admitted
+    user updates (new templates, scaling, re-submitting a RollingUpdate strategy — the latest one counts): if the
+    walk is followed by a successful `Finalize(batchPartition = nil)` of a Deployment that carries the control-info
+    (`claimed`), the Deployment ends with `strategy = RollingUpdate` + the user's latest block, not paused, and
+    without strategy annotation, control-info, control label, extra-status and stable-revision label. -/
+theorem finalize_restores_user_strategy (c : Cfg) (d0 dl : Dep) (u : RU) (pre : List Step) (last : Step) (o : StepOut)
+    (hu : ruValid u = true) (h0 : userState d0 u = true) (hpre : stepsOK pre = true)
+    (hrun : runD c (some d0) pre = some (some dl))
+    (hlast : step c (some dl) last = .val o) (hend : endsWithFinalize last o = true)
+    (hcl : claimed dl = true) :
+    ∃ d', o.dep = some d' ∧ restored d' (trackRU u pre) = true := by
+  obtain ⟨hi, hul⟩ := walk_inv c pre d0 dl u hu (userState_inv d0 u h0) hpre hrun
+  simp only [endsWithFinalize, Bool.and_eq_true, beq_iff_eq] at hend
+  obtain ⟨⟨⟨hcall, hbp⟩, hf⟩, hres⟩ := hend
+  have hc : last.call ≠ .admit := by rw [hcall]; decide
+  rcases ctrl_step_cases c (some dl) last o hc hlast with ⟨hg, _⟩ | ⟨_, hd, _⟩ | ⟨d1, r1, hd, _, _, hrest⟩
+  · rw [hf] at hg; cases hg
+  · cases hd
+  · simp only [Option.some.injEq] at hd; subst hd
+    have hw : writeOf c.rel last dl = ctrlFinalize dl last.bpNil := by simp [writeOf, hcall]
+    rw [hw] at hrest
+    rcases hrest with ⟨hn, _⟩ | ⟨d', _, hfw, _⟩ | ⟨d', hsome, _, _, hdep, _⟩
+    · have := ctrlFinalize_none hn
+      rw [hcl] at this; cases this
+    · rw [hf] at hfw; cases hfw
+    · exact ⟨d', hdep, (inv_finalize hul hi hsome).2 hbp⟩
+
+/-- **C05 (nothing left to restore)** — same walks; if the final `Finalize(batchPartition = nil)` finds the Deployment
+    unclaimed, with no parked strategy and not paused, then it is already as the user configured it. -/
+theorem finalize_nothing_to_restore (c : Cfg) (d0 dl : Dep) (u : RU) (pre : List Step) (last : Step) (o : StepOut)
+    (hu : ruValid u = true) (h0 : userState d0 u = true) (hpre : stepsOK pre = true)
+    (hrun : runD c (some d0) pre = some (some dl))
+    (hlast : step c (some dl) last = .val o) (hend : endsWithFinalize last o = true)
+    (hcl : claimed dl = false) (hpk : parked dl = false) (hpa : dl.paused = false) :
+    o.dep = some dl ∧ restored dl (trackRU u pre) = true := by
+  obtain ⟨hi, _⟩ := walk_inv c pre d0 dl u hu (userState_inv d0 u h0) hpre hrun
+  simp only [endsWithFinalize, Bool.and_eq_true, beq_iff_eq] at hend
+  obtain ⟨⟨⟨hcall, _⟩, hf⟩, _⟩ := hend
+  have hc : last.call ≠ .admit := by rw [hcall]; decide
+  have hr : restored dl (trackRU u pre) = true := by
+    obtain ⟨c1, c2, c3, c4⟩ := hi.clean hpa
+    rcases hi.shape with ⟨h1, h2, h3⟩ | ⟨s, _, _, h3, _⟩ | ⟨s, _, _, _, h4, _⟩
+    · simp [restored, h1, h2, h3, hpa, c1, c2, c3, c4]
+    · simp [parked, h3] at hpk
+    · simp [parked, h4] at hpk
+  refine ⟨?_, hr⟩
+  rcases ctrl_step_cases c (some dl) last o hc hlast with ⟨hg, _⟩ | ⟨_, hd, _⟩ | ⟨d1, r1, hd, _, _, hrest⟩
+  · rw [hf] at hg; cases hg
+  · cases hd
+  · simp only [Option.some.injEq] at hd; subst hd
+    have hw : writeOf c.rel last dl = ctrlFinalize dl last.bpNil := by simp [writeOf, hcall]
+    rw [hw] at hrest
+    rcases hrest with ⟨_, _, hdep, _⟩ | ⟨d', _, hfw, _⟩ | ⟨d', hsome, _⟩
+    · exact hdep
+    · rw [hf] at hfw; cases hfw
+    · have := (ctrlFinalize_some hsome).1
+      rw [hcl] at this; cases this
+
+/-- **C05 (round trip, as the driver evaluates it)** — `roundTripPartial` holds on every walk of the model: outside
+    the two guards (`userRecreate`, `unclaimedFinalize`) the full-strength statement `roundTripFull` is a theorem. -/
+theorem round_trip_partial (c : Cfg) (d0 dl : Dep) (pre : List Step) (last : Step) (o : StepOut)
+    (hrun : runD c (some d0) pre = some (some dl)) (hlast : step c (some dl) last = .val o) :
+    roundTripPartial d0 pre last (some dl) o = true := by
+  unfold roundTripPartial
+  by_cases g1 : guardUserRecreate d0 = true
+  · simp [g1]
+  by_cases g2 : guardUnclaimed (some dl) = true
+  · simp [g2]
+  have g1' : guardUserRecreate d0 = false := by simpa using g1
+  have g2' : guardUnclaimed (some dl) = false := by simpa using g2
+  simp only [g1', g2', Bool.false_or]
+  unfold roundTripFull
+  split
+  · rename_i hcond
+    obtain ⟨hpre, hend, hclean⟩ := hcond
+    have hne : d0.stratType ≠ "Recreate" := by simpa [guardUserRecreate] using g1'
+    split
+    · rename_i u _ d' hst hru _ hod
+      split
+      · rename_i hu
+        have h0 : userState d0 u = true := by simp [userState, hst, hru, hclean]
+        by_cases hcl : claimed dl = true
+        · obtain ⟨d'', hd'', hres⟩ := finalize_restores_user_strategy c d0 dl u pre last o hu h0 hpre hrun hlast hend hcl
+          rw [hod] at hd''; cases hd''; exact hres
+        · have hcl' : claimed dl = false := by simpa using hcl
+          simp only [guardUnclaimed, hcl', Bool.not_false, Bool.true_and, Bool.or_eq_false_iff] at g2'
+          obtain ⟨hpk, hpa⟩ := g2'
+          obtain ⟨hdep, hres⟩ := finalize_nothing_to_restore c d0 dl u pre last o hu h0 hpre hrun hlast hend hcl' hpk hpa
+          rw [hod] at hdep; cases hdep; exact hres
+      · rfl
+    · rename_i hst _ _ _
+      exact absurd hst hne
+    · rfl
+  · rfl
+
 end RV.Props.CtlPDeploy
